@@ -17,7 +17,7 @@ func init() {
 		r.floor("R3", 2)
 	}, checkC14)
 	register("C11", func(r *Report) {
-		r.Explanation = "Decides: (R1) the MQTT-SN sender is the only writer of the client connection and, explored per session state, writes nothing and appends the packet to the buffer exactly when the state is Asleep; (R2) handling PINGREQ in state Asleep sets Awake first, hands every buffered element to the sender in index order, clears the buffer, sends PINGRESP last and returns to Asleep; no other handler clears or replaces the buffer without flushing it; the state-changing CONNECT of a sleeping client also flushes; (R3) lockset of the buffer field across the two receive loops and timer callbacks. Not decided: delivered-once when a QoS>=1 retry timer fires while asleep (history)."
+		r.Explanation = "Decides: (R1) the MQTT-SN sender is the only writer of the client connection and, explored per session state, writes nothing and appends the packet to the buffer exactly when the state is Asleep; the session-end goroutine sends nothing to a sleeping client either (C13-R4 for the asleep state, re-run here); (R2) handling PINGREQ in state Asleep sets Awake first, hands every buffered element to the sender in index order, clears the buffer, sends PINGRESP last and returns to Asleep; every iteration of the flush loop reaches the send (no buffered packet is skipped); no other handler clears or replaces the buffer without flushing it; the state-changing CONNECT of a sleeping client also flushes; (R3) lockset of the buffer field across the two receive loops and timer callbacks. Not decided: delivered-once when a QoS>=1 retry timer fires while asleep (history)."
 		r.floor("R1", 4)
 		r.floor("R2", 3)
 		r.floor("R3", 1)
@@ -290,6 +290,9 @@ func checkC11(c *Ctx, r *Report) {
 		}
 	}
 	c.checkConnEscapes(r, "R1", "gateway", m.mqSenders)
+	// the session-end goroutine has its own path to the sender after changing the state: explored per state in C13-R4,
+	// the asleep case ("sends it nothing") belongs here
+	importRulesF(c, r, "C13", map[string]string{"R4": "R1"}, func(rule, key string) bool { return key == "shutdown/Asleep" })
 	for s := range m.snSenders {
 		r.fn(s)
 		for _, st := range []int64{0, 1, 2, 3} {
@@ -520,6 +523,7 @@ func (c *Ctx) checkBufferClears(r *Report, m *gwModel, btyp, bfield string) {
 			key := fnKey(f) + ":buffer-clear"
 			// flush: a send whose argument is an element of the buffer, in a loop, from which this store is reachable only after the loop
 			var flushSend ssa.Instruction
+			var flushElem *ssa.IndexAddr
 			ordered := false
 			allInstrs(f, func(j ssa.Instruction) {
 				ci, ok := j.(ssa.CallInstruction)
@@ -536,6 +540,7 @@ func (c *Ctx) checkBufferClears(r *Report, m *gwModel, btyp, bfield string) {
 						os := c.origins(ia.X)
 						if len(os) == 1 && os[0].PathStr() == bfield && inCycle(j.Block()) {
 							flushSend = j
+							flushElem = ia
 							ordered = indexCountsUp(ia.Index)
 						}
 					}
@@ -547,6 +552,20 @@ func (c *Ctx) checkBufferClears(r *Report, m *gwModel, btyp, bfield string) {
 			}
 			if !ordered {
 				r.bad("R2", key, c.instrPos(st), "buffered packets are not flushed in index order")
+				return
+			}
+			// every iteration hands its element to the sender: no path from the element access to the next
+			// iteration (or out of the loop) that avoids the send
+			if hdr := loopHeaderOfIndex(flushElem.Index); hdr != nil {
+				skip, _ := pathExists(f, flushElem, func(x ssa.Instruction) bool {
+					return x.Block() == hdr || !blockInLoopOf(x.Block(), hdr)
+				}, func(x ssa.Instruction) bool { return x == flushSend })
+				if skip {
+					r.bad("R2", key, c.instrPos(flushSend), "an iteration of the flush loop can go on to the next buffered packet (or leave the loop normally) without handing the current one to the sender: a buffered packet is dropped, not delivered at wake-up")
+					return
+				}
+			} else {
+				r.undecided("R2", key, c.instrPos(flushSend), "loop header of the flush loop not found")
 				return
 			}
 			// every path from entry to the store passes the loop header of the flush
@@ -960,6 +979,49 @@ func (c *Ctx) isContextDone(v ssa.Value) bool {
 	cc := &call.Call
 	if cc.IsInvoke() && cc.Method.Name() == "Done" && typeIs(cc.Value.Type(), "context", "Context") {
 		return true
+	}
+	return false
+}
+
+// loopHeaderOfIndex: the block of the phi that carries a counting loop index.
+func loopHeaderOfIndex(idx ssa.Value) *ssa.BasicBlock {
+	for d := 0; d < 4 && idx != nil; d++ {
+		switch x := idx.(type) {
+		case *ssa.Phi:
+			return x.Block()
+		case *ssa.BinOp:
+			if _, ok := x.Y.(*ssa.Const); ok {
+				idx = x.X
+			} else {
+				idx = x.Y
+			}
+		case *ssa.Convert:
+			idx = x.X
+		default:
+			return nil
+		}
+	}
+	return nil
+}
+
+// blockInLoopOf: b is inside the natural loop(s) headed by hdr (hdr dominates b and hdr is reachable from b).
+func blockInLoopOf(b, hdr *ssa.BasicBlock) bool {
+	if !hdr.Dominates(b) {
+		return false
+	}
+	seen := map[*ssa.BasicBlock]bool{}
+	work := []*ssa.BasicBlock{b}
+	for len(work) > 0 {
+		x := work[len(work)-1]
+		work = work[:len(work)-1]
+		if x == hdr {
+			return true
+		}
+		if seen[x] {
+			continue
+		}
+		seen[x] = true
+		work = append(work, x.Succs...)
 	}
 	return false
 }
